@@ -958,3 +958,134 @@ func toFPU(s Sort) string {
 }
 
 var _ = bits.Len64
+
+// ---------- evaluation under a model ----------
+
+// Eval evaluates t under an assignment of variables (by name). ok=false when
+// the value cannot be determined (uninterpreted functions, unspecified
+// conversions, missing variables).
+func (f *Factory) Eval(t *Term, model map[string]uint64, memo map[int]*Term) (*Term, bool) {
+	if t.Op == OConst {
+		return t, true
+	}
+	if r, ok := memo[t.ID]; ok {
+		return r, r != nil
+	}
+	var res *Term
+	switch t.Op {
+	case OVar:
+		v, ok := model[t.Name]
+		if !ok {
+			memo[t.ID] = nil
+			return nil, false
+		}
+		switch t.Sort.Kind {
+		case KBool:
+			res = f.BoolConst(v != 0)
+		case KBV:
+			res = f.BVConst(v, t.Sort.W)
+		default:
+			memo[t.ID] = nil
+			return nil, false
+		}
+	case OUF, OFPToSBV, OFPToUBV:
+		memo[t.ID] = nil
+		return nil, false
+	case OIte:
+		c, ok := f.Eval(t.Args[0], model, memo)
+		if !ok {
+			memo[t.ID] = nil
+			return nil, false
+		}
+		if c.U == 1 {
+			res, ok = f.Eval(t.Args[1], model, memo)
+		} else {
+			res, ok = f.Eval(t.Args[2], model, memo)
+		}
+		if !ok {
+			memo[t.ID] = nil
+			return nil, false
+		}
+	case OAnd, OOr:
+		a, ok := f.Eval(t.Args[0], model, memo)
+		if ok && ((t.Op == OAnd && a.U == 0) || (t.Op == OOr && a.U == 1)) {
+			res = a
+			break
+		}
+		b, ok2 := f.Eval(t.Args[1], model, memo)
+		if ok2 && ((t.Op == OAnd && b.U == 0) || (t.Op == OOr && b.U == 1)) {
+			res = b
+			break
+		}
+		if !ok || !ok2 {
+			memo[t.ID] = nil
+			return nil, false
+		}
+		res = b
+	default:
+		args := make([]*Term, len(t.Args))
+		for i, a := range t.Args {
+			v, ok := f.Eval(a, model, memo)
+			if !ok {
+				memo[t.ID] = nil
+				return nil, false
+			}
+			args[i] = v
+		}
+		res = f.rebuild(t, args)
+		if res == nil || !res.IsConst() {
+			memo[t.ID] = nil
+			return nil, false
+		}
+	}
+	memo[t.ID] = res
+	return res, true
+}
+
+func (f *Factory) rebuild(t *Term, a []*Term) *Term {
+	switch t.Op {
+	case ONot:
+		return f.Not(a[0])
+	case OEq:
+		return f.Eq(a[0], a[1])
+	case OBVNeg:
+		return f.BVNeg(a[0])
+	case OBVNot:
+		return f.BVNot(a[0])
+	case OBVAdd, OBVSub, OBVMul, OBVUDiv, OBVURem, OBVSDiv, OBVSRem, OBVAnd, OBVOr, OBVXor, OBVShl, OBVLshr, OBVAshr:
+		return f.bvBin(t.Op, a[0], a[1])
+	case OBVUlt, OBVUle, OBVSlt, OBVSle:
+		return f.bvCmp(t.Op, a[0], a[1])
+	case OConcat:
+		return f.Concat(a[0], a[1])
+	case OExtract:
+		return f.Extract(a[0], t.P1, t.P2)
+	case OZext:
+		return f.ZExt(a[0], t.Sort.W)
+	case OSext:
+		return f.SExt(a[0], t.Sort.W)
+	case OFPAdd, OFPSub, OFPMul, OFPDiv:
+		return f.FPBin(t.Op, a[0], a[1])
+	case OFPNeg:
+		return f.FPNeg(a[0])
+	case OFPAbs:
+		return f.FPAbs(a[0])
+	case OFPEq, OFPLt, OFPLe:
+		return f.FPCmp(t.Op, a[0], a[1])
+	case OFPIsNaN:
+		return f.FPIsNaN(a[0])
+	case OFPIsInf:
+		return f.FPIsInf(a[0])
+	case OFPFromSBV:
+		return f.FPFromBV(a[0], true, t.Sort)
+	case OFPFromUBV:
+		return f.FPFromBV(a[0], false, t.Sort)
+	case OFPToFP:
+		return f.FPToFP(a[0], t.Sort)
+	case OFPFromBits:
+		return f.FPFromBits(a[0])
+	case OFPStructEq:
+		return f.FPStructEq(a[0], a[1])
+	}
+	return nil
+}
